@@ -32,6 +32,10 @@ def run(ctx, L, tier):
     M.dynamic_predicates(ctx, L)
     X.optional_codec_cxx(ctx, L)
     X.no_virtual_in_message(ctx, L)
+    # the generated decoder re-aligns / skips exactly where the model (and the generated encoder) pads: a missing step makes the
+    # decoder accept a truncated message and reject a well-formed one
+    from . import shared_gen as G
+    G.padding_tail(ctx, L, 'generate_struct_decode', G.PAD_DEC)
     return sorted(set(rules) | set(o.rule for o in L.obligations))
 
 
